@@ -259,6 +259,9 @@ class EvalSeams:
     def _fire(self, f, site):
         self.fired.append({"kind": f["kind"], "site": site, "eval": self.eval_no, "exc": f["exc"]})
         self.injected = make_exc(f["exc"], f"eval {self.eval_no} site {site}")
+        if f.get("swap_stdout"):
+            # the model code that fails had redirected stdout for itself and never gets to undo it
+            sys.stdout = io.StringIO()
         raise self.injected
 
     def _site(self, site):
